@@ -116,6 +116,11 @@ def gen_hist(rng, name):
         s, q, n = gen_run(rng, name)
         return [(s, max(q, 0.003), n + 20)]   # keep mu large enough for brentq's bracket [0, 500]
     r = rng.random()
+    if name == "prv" and rng.random() < 0.3:
+        # a schedule with many stages (the composition tree has odd levels at several depths: 7, 11, 13, 14, 15 runs)
+        k = rng.choice([7, 11, 13, 14, 15, 9])
+        q = rng.choice([0.01, 0.02, 0.05])
+        return [(rnd(0.9 + 0.07 * i + rng.uniform(0, 0.03)), q, rng.randint(20, 200)) for i in range(k)]
     if r < 0.2:
         # a long phase followed by a brief change of sigma (either order): the composed epsilon is far above
         # what the short run alone would give (domain sizing of the PRV accountant must use the whole history)
@@ -224,6 +229,28 @@ def check_pair(name, rel, h, d, pair):
 
 
 # --------------------------------------------------------------------------- closed forms on the real code
+def q_one_eps_check(s1, n1, d1):
+    """full epsilon at q = 1: the exact (Balle-Wang) epsilon of n-fold Gaussian composition, mu = sqrt(n)/sigma.
+    RDP's conversion is an upper bound of it; PRV brackets it within its stated eps_error."""
+    from opacus.accountants import PRVAccountant, RDPAccountant
+    from scipy.optimize import brentq
+    mu1 = math.sqrt(n1) / s1
+    if mu1 >= 6:
+        return None
+    gd = lambda e: norm.cdf(-e / mu1 + mu1 / 2) - math.exp(e + norm.logcdf(-e / mu1 - mu1 / 2)) - d1  # noqa: E731
+    exact = brentq(gd, 0.0, 2000.0, xtol=1e-12) if gd(0.0) > 0 else 0.0
+    for nm, cls in (("rdp", RDPAccountant), ("prv", PRVAccountant)):
+        acc1 = cls()
+        acc1.history = [(s1, 1.0, n1)]
+        e1 = L.call(acc1.get_epsilon, d1)
+        if isinstance(e1, L.Exc):
+            continue
+        if e1 < exact - 1e-6 or (nm == "prv" and e1 > exact + 0.03):
+            return (f"C12:closed-form:q-one-epsilon:{nm}", f"{cls.__name__} on [({s1}, 1.0, {n1})], delta={d1}: epsilon {e1}; the Gaussian mechanism composed {n1} times has exactly {exact}",
+                    {"failing_input": {"kind": "q-one-eps", "sigma": s1, "steps": n1, "delta": d1}})
+    return None
+
+
 def closed_form_oracle(case=None, rng=None, n=30):
     """PROPERTY on the real code: q = 1 gives the Gaussian mechanism (RDP alpha/(2 s^2)); GDP mu equals
     q*sqrt(T(e^{1/s^2}-1)) and get_epsilon inverts delta_eps_mu; the CLI agrees with the accountant."""
@@ -241,6 +268,9 @@ def closed_form_oracle(case=None, rng=None, n=30):
         got = R._compute_rdp(1.0, s, a)
         if not core.close(got, a / (2 * s * s), 1e-12):
             return ("C12:closed-form:q-one", f"_compute_rdp(q=1, sigma={s}, alpha={a}) = {got}, Gaussian mechanism has {a / (2 * s * s)}", {"sigma": s, "alpha": a, "failing_input": {"kind": "q-one", "sigma": s, "alpha": a}})
+        r1 = q_one_eps_check(max(s, 0.7), rng.randint(1, 20), 10 ** rng.uniform(-7, -4))
+        if r1:
+            return r1
         q, T = rnd(10 ** rng.uniform(-3, -0.5)), rng.randint(1, 5000)
         mu = G.compute_mu_poisson(steps=T, noise_multiplier=s, sample_rate=q)
         want = q * math.sqrt(T * math.expm1(1 / (s * s)))
@@ -460,6 +490,8 @@ def replay(ctx, rp):
         exp = {"perm": "eq", "split": "eq", "merge": "eq", "one-at-a-time": "eq", "+steps": "ge", "+q": "ge", "+sigma": "le", "+delta": "le"}[rel]
         pair = ("steps", d, "eq") if rel == "one-at-a-time" else ([tuple(x) for x in h2], d2, exp)
         res = check_pair(name, rel, h, d, pair)[1]
+    elif fi.get("kind") == "q-one-eps":
+        res = q_one_eps_check(fi["sigma"], fi["steps"], fi["delta"])
     else:
         res = closed_form_oracle()
     if res:
